@@ -58,8 +58,14 @@ PROPS = {
     "C07": P("exploration", "none yet", ["has_legal_moves_iff", "insufficient_iff", "calc_outcome_eq"],
              "differential vs Spec.outcomes (relational: any applicable reason of the right tier); thresholds and masks re-extracted from source",
              "§6 C07"),
-    "C08": P("exploration", "none yet", ["parse_format_raw", "format_canonical"],
-             "differential: independent grammar-style FEN reader (Spec.Fen.read) on the implementation's output; parse-format-parse stability observed on the implementation",
+    "C08": P("proof", "fen_roundtrip (for EVERY raw board whose en-passant mark is on the rank for the side to move and whose counters "
+             "fit u16, parseFen (fmtFen r) = r in all six fields) and fen_roundtrip_iff (those hypotheses are necessary); "
+             "fen_roundtrip_valid (every valid position is read back, and Board::from_fen of its text returns the same board); "
+             "fen_parse_format_parse (parse–format–parse is stable for ANY accepted text); cells_roundtrip (run-length encoding, no "
+             "hypothesis), counter_roundtrip, splitSpaces_six / fmtFen_split (canonical six fields on single spaces), fmtFen_ascii, "
+             "fmtFen_injective",
+             ["that an INDEPENDENT reader interprets the text as the same position is checked differentially (Spec.Fen.read in the driver), not proved"],
+             "Lean 4 theorems over all raw boards and all byte strings; differential on generated positions and strings ties the model to the code",
              "§6 C08"),
     "C09": P("exploration", "none yet", ["san_sound", "san_of_move_standard", "san_roundtrip"],
              "differential vs Spec.San.write / Spec.San.denotes (declarative spellings)", "§6 C09", 0.6, 1.0),
